@@ -295,7 +295,7 @@ def s_ratcase():
 
 
 def s_jsonval(depth):
-    leaf = st.one_of(st.none(), st.integers(-(2 ** 63), 2 ** 63 - 1), st.integers(-5, 5),
+    leaf = st.one_of(st.none(), st.integers(-(2 ** 63), 2 ** 63 - 1), st.integers(-5, 5), wide_ints(20, 63).filter(lambda n: -(2 ** 63) <= n < 2 ** 63),
                      st.floats(allow_nan=False, allow_infinity=False), st.sampled_from([0.0, -0.0, 1e22, 1e-7, 5e-324, 1.5, 1e300]),
                      st.text(alphabet=st.characters(blacklist_categories=("Cc", "Cs", "Cf", "Co", "Cn", "Zl", "Zp")), max_size=8),
                      st.booleans())
